@@ -135,7 +135,7 @@ func init() {
 			n := g.Int("note_len", 0, 40)
 			note := g.Bytes("note", n)
 			a := of.NewNXActionNote()
-			a.Note = cp(note)
+			a.Note = g.Carve(note)
 			// the NX wire format has no inner length: the note is right-padded with zeros to
 			// the 8-byte boundary of the action (normalisation listed in DESIGN 4.2)
 			padded := make([]byte, (10+n+7)/8*8-10)
@@ -208,7 +208,7 @@ func genLearn(g *G) (of.Action, *spec.Node) {
 					v[i] &= 0xff >> uint(spare)
 				}
 			}
-			s.SrcValue = cp(v)
+			s.SrcValue = g.Carve(v)
 			sn.With(spec.B("src_value", v))
 		} else {
 			f, h := g.HeaderField(l + "src")
